@@ -5,12 +5,17 @@ def decode(string):
   if string == "*":
     return gfapy.Placeholder()
   else:
+    validate_encoded(string)
+    return unsafe_decode(string)
+
+def unsafe_decode(string):
+  if string == "*":
+    return gfapy.Placeholder()
+  else:
     try:
       return int(string)
     except:
       raise gfapy.FormatError("the string does not represent a valid integer")
-
-unsafe_decode = decode
 
 def validate_decoded(obj):
   if isinstance(obj, int) or isinstance(object, gfapy.Placeholder):
